@@ -135,8 +135,12 @@ DDropCancel ==
 DDrainEvent ==
   /\ pc["d"] = "drain" /\ ev /\ ev' = FALSE
   /\ Goto("c1", "yb_es") /\ UNCHANGED <<para, cbit, slot, timer, tok2, res2, ended, res1>>
+\* the hook ru.join sits in front of join(): passing it starts the wait
+DJoinPt ==
+  /\ pc["d"] = "ru.join" /\ Goto("d", "join_wait")
+  /\ UNCHANGED <<para, cbit, slot, timer, tok2, res2, ended, ev, res1>>
 DJoin ==
-  /\ pc["d"] \in {"ru.join", "drain"} /\ ended["c1"] # "no" /\ ~ev
+  /\ pc["d"] \in {"join_wait", "drain"} /\ ended["c1"] # "no" /\ ~ev
   /\ pc["c1"] = "done"
   \* spawn of the innocent coroutine: a fresh Cancel and fresh local storage; the generator is the pooled one
   /\ Goto2("d", "ru.unpark", "c2", "start") /\ UNCHANGED <<para, cbit, slot, timer, tok2, res2, ended, ev, res1>>
@@ -183,11 +187,11 @@ C2Epilogue ==
   /\ UNCHANGED <<cbit, slot, timer, ev, res1>>
 
 Step(a) ==
-  CASE a = "d" -> DCancel \/ DLeave \/ DDropCancel \/ DUnpark \/ (pc["d"] = "ru.join" /\ DJoin)
+  CASE a = "d" -> DCancel \/ DLeave \/ DDropCancel \/ DUnpark \/ DJoinPt
     [] a = "c1" -> C1Block \/ C1SendCheck \/ C1SendYield
     [] OTHER -> C2Park
 Internal(a) ==
-  CASE a = "d" -> DCancelTake \/ DDrainEvent \/ (pc["d"] = "drain" /\ DJoin) \/ DUnparkTake \/ DFinish
+  CASE a = "d" -> DCancelTake \/ DDrainEvent \/ DJoin \/ DUnparkTake \/ DFinish
     [] a = "c1" -> C1Run \/ C1SubStore \/ C1SubRecheck \/ C1YieldBack \/ C1Epilogue \/ C1SendBack
     [] OTHER -> C2Start \/ C2SubStore \/ C2SubRecheck \/ C2Epilogue
 InternalPcs == {"run", "sub_store", "sub_recheck", "yb", "epi", "yb_es", "cancel_take", "unpark_take", "start",
